@@ -133,8 +133,18 @@ def encmat_correspondence(c):
     return n_ok
 
 
+def encdec_sessions(c):
+    """OF_ENCODER_AND_DECODER sessions that first build repair symbols (which must be the codeword's) and then decode the block"""
+    import session_check, sessions
+    reqs = sessions.gen_requests(c.rng, 40 if c.tier == "quick" else 400, codecs=(sessions.RS28, sessions.RS2M, sessions.LDPC))
+    for q in reqs:
+        q.role = 4
+    session_check.run_sessions(c, (), {"C06"}, 0, 0, extra_reqs=reqs)
+
+
 def run(c):
     c.prove(["Properties_C06.v"])
+    encdec_sessions(c)
     rng = c.rng
     reqs, meta = [], []
     F4, F8 = GF(4), GF(8)
